@@ -1,0 +1,50 @@
+package base
+
+import (
+	"testing"
+
+	"github.com/relex/gotils/promexporter/promext"
+	"github.com/relex/gotils/promexporter/promreg"
+	"github.com/stretchr/testify/assert"
+)
+
+func TestLogProcessCounterSetKeyBoundaries(t *testing.T) {
+	schema := MustNewLogSchema([]string{"app", "source", "log"})
+	mfactory := promreg.NewMetricFactory("testpc_", nil, nil)
+	pcounter := NewLogProcessCounter(mfactory, schema, schema.MustCreateFieldLocators([]string{"app", "source"}), nil)
+	countLabelled := pcounter.RegisterCustomCounter("mylabel")
+
+	// metric key sets which differ only in where the boundary between fields lies must be counted separately
+	for _, fields := range []LogFields{
+		{"ab", "c", "1"},
+		{"a", "bc", "2"},
+		{"", "x", "3"},
+		{"x", "", "4"},
+		{"ab", "c", "5"},
+	} {
+		record := schema.NewTestRecord1(fields)
+		record.RawLength = 10
+		icounter := pcounter.SelectMetricKeySet(record)
+		icounter.CountRecordPass(record)
+		countLabelled(record.RawLength)
+	}
+	pcounter.UpdateMetrics()
+
+	assert.Equal(t, `testpc_labelled_record_bytes_total{key_app="",key_source="x",label="mylabel"} 10
+testpc_labelled_record_bytes_total{key_app="a",key_source="bc",label="mylabel"} 10
+testpc_labelled_record_bytes_total{key_app="ab",key_source="c",label="mylabel"} 20
+testpc_labelled_record_bytes_total{key_app="x",key_source="",label="mylabel"} 10
+testpc_labelled_records_total{key_app="",key_source="x",label="mylabel"} 1
+testpc_labelled_records_total{key_app="a",key_source="bc",label="mylabel"} 1
+testpc_labelled_records_total{key_app="ab",key_source="c",label="mylabel"} 2
+testpc_labelled_records_total{key_app="x",key_source="",label="mylabel"} 1
+testpc_passed_record_bytes_total{key_app="",key_source="x"} 10
+testpc_passed_record_bytes_total{key_app="a",key_source="bc"} 10
+testpc_passed_record_bytes_total{key_app="ab",key_source="c"} 20
+testpc_passed_record_bytes_total{key_app="x",key_source=""} 10
+testpc_passed_records_total{key_app="",key_source="x"} 1
+testpc_passed_records_total{key_app="a",key_source="bc"} 1
+testpc_passed_records_total{key_app="ab",key_source="c"} 2
+testpc_passed_records_total{key_app="x",key_source=""} 1
+`, promext.DumpMetrics("", true, true, mfactory))
+}
